@@ -32,6 +32,7 @@ class CommitXlsxExporter:
         self._xlsx_file_name = export_directory + sep + file_name
         self._sheets = {}
         self._long_sheet_name_translation_dictionary = {}
+        self._sheet_commit_names = {}
 
     def __enter__(self):
 
@@ -104,14 +105,18 @@ class CommitXlsxExporter:
         # Set the sheet name to be the commit name (without the characters a sheet title may not contain)
         sheet_name = sub(r"[\\*?:/\[\]]", "_", commit.name)
 
-        # Check if the sheet name is greater than 31 characters
-        if len(sheet_name) > 31:
+        # Check if the sheet name is greater than 31 characters, or is the sheet of another commit name (two names can
+        # become the same sheet name by the substitution above: a/b and a_b): a new name is made for it in both cases
+        if (
+            len(sheet_name) > 31
+            or self._sheet_commit_names.get(sheet_name, commit.name) != commit.name
+        ):
 
-            # Check if the sheet name is already in the dictionary
-            if sheet_name in self._long_sheet_name_translation_dictionary:
+            # Check if the commit name is already in the dictionary
+            if commit.name in self._long_sheet_name_translation_dictionary:
 
                 # Set it to the name already made for it from a previous call
-                sheet_name = self._long_sheet_name_translation_dictionary[sheet_name]
+                sheet_name = self._long_sheet_name_translation_dictionary[commit.name]
 
             # The sheet name was not already in the dictionary so we need to make a new name
             else:
@@ -131,7 +136,7 @@ class CommitXlsxExporter:
                     ):
 
                         # Add the sheet name and truncated sheet name into the dictionary
-                        self._long_sheet_name_translation_dictionary[sheet_name] = (
+                        self._long_sheet_name_translation_dictionary[commit.name] = (
                             truncated_sheet_name
                         )
 
@@ -179,6 +184,7 @@ class CommitXlsxExporter:
         if not sheet:
             sheet = self._workbook.create_sheet(sheet_name)
             self._sheets[sheet_name] = sheet
+            self._sheet_commit_names[sheet_name] = commit.name
             write_headers = True
 
         """
